@@ -35,6 +35,8 @@ func (c Claim) coq(p *printer) string {
 	switch c.Kind {
 	case "none":
 		return "CNone"
+	case "additive":
+		return "CAdditive"
 	case "compat":
 		return "CCompat"
 	case "removed":
@@ -134,7 +136,7 @@ func apply(s *Schema, e Edit) (*Schema, Claim, error) {
 			return cur, compat, nil
 		}
 		return cur, none, nil
-	case "append_field", "insert_field", "remove_field", "swap_fields", "change_kind":
+	case "append_field", "insert_field", "remove_field", "swap_fields", "change_kind", "change_maxlen":
 		fl := n.fieldList(e.WS, e.Name, e.Part)
 		if fl == nil {
 			return nil, none, errNA
@@ -143,7 +145,7 @@ func apply(s *Schema, e Edit) (*Schema, Claim, error) {
 		l := *fl
 		switch e.Kind {
 		case "append_field":
-			*fl = append(l, Field{e.New, e.K})
+			*fl = append(l, Field{N: e.New, K: e.K})
 			if isKey(e.Part) {
 				return n, Claim{"listchanged", base}, nil
 			}
@@ -154,7 +156,7 @@ func apply(s *Schema, e Edit) (*Schema, Claim, error) {
 			}
 			displaced := l[e.I].N
 			nl := append([]Field{}, l[:e.I]...)
-			nl = append(nl, Field{e.New, e.K})
+			nl = append(nl, Field{N: e.New, K: e.K})
 			*fl = append(nl, l[e.I:]...)
 			if isKey(e.Part) {
 				return n, Claim{"listchanged", base}, nil
@@ -182,24 +184,62 @@ func apply(s *Schema, e Edit) (*Schema, Claim, error) {
 			}
 			l[e.I], l[e.J] = l[e.J], l[e.I]
 			return n, Claim{"reordered", append(base, l[e.J].N)}, nil
-		default: // change_kind
+		case "change_maxlen": // constraint only (README: write compatibility, not checked): correspondence only
+			if e.I < 0 || e.I >= len(l) || (l[e.I].K != 7 && l[e.I].K != 8) || l[e.I].Max == uint16(e.J) {
+				return nil, none, errNA
+			}
+			l[e.I].Max = uint16(e.J)
+			return n, none, nil
+		default: // change_kind; a MaxLen constraint stays when the new kind can carry it
 			if e.I < 0 || e.I >= len(l) || l[e.I].K == e.K {
 				return nil, none, errNA
 			}
 			l[e.I].K = e.K
+			if e.K != 7 && e.K != 8 {
+				l[e.I].Max = 0
+			}
 			return n, Claim{"value", append(base, l[e.I].N)}, nil
 		}
 	case "add_table":
-		n.WSs[e.WS].Tables = append(n.WSs[e.WS].Tables, Table{Name: e.New, Kind: e.TK, Fields: []Field{{"a", 3}, {"b", 8}}})
+		n.WSs[e.WS].Tables = append(n.WSs[e.WS].Tables, Table{Name: e.New, Kind: e.TK, Fields: []Field{{N: "a", K: 3}, {N: "b", K: 8}}})
 		return n, compat, nil
+	case "add_pkg_table":
+		// a new type in a NEW package: "only appends new types" at schema level
+		for _, p := range n.Pkgs {
+			if p == e.To {
+				return nil, none, errNA
+			}
+		}
+		n.Pkgs = append(n.Pkgs, e.To)
+		n.WSs[e.WS].Tables = append(n.WSs[e.WS].Tables, Table{Pkg: e.To, Name: e.New, Kind: "cdoc", Fields: []Field{{N: "a", K: 3}}})
+		return n, Claim{Kind: "additive"}, nil
+	case "table_kind":
+		// the same QName changes its kind (cdoc <-> wdoc ...): not in the property's catalogue, correspondence only
+		t := n.table(e.WS, e.Name)
+		if t == nil || t.Kind == e.TK {
+			return nil, none, errNA
+		}
+		t.Kind = e.TK
+		return n, none, nil
+	case "table_to_view":
+		// a table is replaced by a view of the same QName: correspondence only
+		ws := &n.WSs[e.WS]
+		for i := range ws.Tables {
+			if ws.Tables[i].Name == e.Name && ws.Tables[i].Pkg == "" {
+				ws.Tables = append(ws.Tables[:i], ws.Tables[i+1:]...)
+				ws.Views = append(ws.Views, View{Name: e.Name, PK: []Field{{N: "p", K: 4}}, CC: []Field{{N: "c", K: 3}}, Val: []Field{{N: "a", K: 3}}})
+				return n, none, nil
+			}
+		}
+		return nil, none, errNA
 	case "add_view":
-		n.WSs[e.WS].Views = append(n.WSs[e.WS].Views, View{Name: e.New, PK: []Field{{"p", 4}}, CC: []Field{{"c", 8}}, Val: []Field{{"v", 3}}})
+		n.WSs[e.WS].Views = append(n.WSs[e.WS].Views, View{Name: e.New, PK: []Field{{N: "p", K: 4}}, CC: []Field{{N: "c", K: 8}}, Val: []Field{{N: "v", K: 3}}})
 		return n, compat, nil
 	case "add_fn":
 		n.WSs[e.WS].Fns = append(n.WSs[e.WS].Fns, Fn{Name: e.New, Query: e.K == 1, Param: e.To})
 		return n, compat, nil
 	case "add_ws":
-		n.WSs = append(n.WSs, WS{Name: e.New, Tables: []Table{{Name: e.New + "Doc", Kind: "cdoc", Fields: []Field{{"a", 3}}}}})
+		n.WSs = append(n.WSs, WS{Name: e.New, Tables: []Table{{Name: e.New + "Doc", Kind: "cdoc", Fields: []Field{{N: "a", K: 3}}}}})
 		return n, compat, nil
 	case "use_ws":
 		if e.WS >= len(n.WSs) {
